@@ -5,6 +5,7 @@ package c03
 import (
 	"bytes"
 	"fmt"
+	"io"
 	"math"
 	"math/rand"
 	"strings"
@@ -660,9 +661,35 @@ func runMerge(c *harness.Ctx) harness.Result {
 		lists[r.Intn(np)] = append(lists[r.Intn(np)], n)
 		injected = append(injected, "cancel")
 	}
+	// every fortieth case is wide: 140 locations, each the only frame of one sample of the first
+	// input, followed by two-frame stacks over the first few of them (the merged location ids then
+	// pass 127, and the stacks "a, first" sit next to the single frames "128+a")
+	wide := c.Index%40 == 7
+	if wide {
+		var first []uSample
+		base := len(u.locs)
+		for i := 0; i < 140; i++ {
+			u.addLoc(uLoc{m: 0, rel: uint64(0x100 + 8*i), lines: []uLine{{fn: i % len(u.fns), line: int64(100 + i)}}})
+			first = append(first, uSample{locs: []int{base + i}, values: make([]int64, len(types))})
+		}
+		for a := 0; a < 14; a++ {
+			for _, b := range []int{0, 1} {
+				first = append(first, uSample{locs: []int{base + a, base + b}, values: make([]int64, len(types))})
+			}
+		}
+		for i := range first {
+			for k := range first[i].values {
+				first[i].values[k] = int64(1 + i%3)
+			}
+		}
+		lists[0] = append(first, lists[0]...)
+		c.Stat("wide_merges", 1)
+	}
 	var ps []*profile.Profile
 	for i := range lists {
-		r.Shuffle(len(lists[i]), func(a, b int) { lists[i][a], lists[i][b] = lists[i][b], lists[i][a] })
+		if !(wide && i == 0) {
+			r.Shuffle(len(lists[i]), func(a, b int) { lists[i][a], lists[i][b] = lists[i][b], lists[i][a] })
+		}
 		ps = append(ps, u.concrete(r, lists[i], types))
 	}
 	for i, p := range ps {
@@ -672,6 +699,15 @@ func runMerge(c *harness.Ctx) harness.Result {
 	}
 	for _, a := range injected {
 		c.Stat("twin."+a, 1)
+	}
+	// some of the inputs have been written or copied before (which leaves their encoder state behind)
+	for _, p := range ps {
+		switch r.Intn(5) {
+		case 0:
+			p.WriteUncompressed(io.Discard)
+		case 1:
+			_ = p.Copy()
+		}
 	}
 	want, nin := viewOf(ps...)
 	before := make([]string, len(ps))
